@@ -31,32 +31,76 @@ class DriverHang(Exception):
 class Config:
     LOGGERS = "ncl"
 
-    def __init__(self, mac=None, selfips=None, deny=None, key=(0, 0), logger="n", level=0):
+    JUNK = ["", "", "scanner.example.org", "# scanners", "300.1.1.1", "1.2.3", "fe80::zz", "10.0.0.0/8", "localhost", "1.2.3.4.5", "::ffff:1.2.3.4.5", "-"]
+
+    def __init__(self, mac=None, selfips=None, deny=None, key=(0, 0), logger="n", level=0, noise=None):
         self.mac = mac or pkt.mac("c0:ff:ee:c0:ff:ee")
         self.selfips = None if selfips is None else list(selfips)
         self.deny = None if deny is None else list(deny)
         self.key, self.logger, self.level = tuple(key), logger, level
+        # noise: None = the lists are handed over as plain comma-separated addresses; an integer = the way the lists are
+        # written is drawn from it (inline list and / or file, with the entries every real list has: comments, blank lines,
+        # empty items, host names, malformed addresses, "address<TAB>count" lines) - the *set* configured is the same
+        self.noise = noise
+
+    def _written(self, l, r):
+        import hashlib
+        import random
+        items = [pkt.ip_s(x) for x in l]
+        r = random.Random(r)
+        r.shuffle(items)
+        k = r.randrange(3)
+        infile = items if k == 1 else (items[:len(items) // 2] if k == 2 else [])
+        inline = [x for x in items if x not in infile]
+        def salt(xs, junk):
+            out = list(xs)
+            for _ in range(r.randrange(0, 4)):
+                out.insert(r.randrange(len(out) + 1), r.choice(junk))
+            if xs and r.random() < 0.3:
+                out.insert(r.randrange(len(out) + 1), r.choice(xs))      # an address listed twice
+            return out
+        parts = []
+        if infile:
+            lines = [x + ("\t%d" % r.randrange(1000) if r.random() < 0.3 else "") for x in salt(infile, self.JUNK + ["# comment with spaces", " ", "10.1.1.1 trailing words"])]
+            # never let a junk line be a valid address of its own
+            eol = r.choice(["\n", "\n", "\r\n"])
+            body = (eol.join(lines) + (eol if r.random() < 0.8 else "")).encode()
+            d = os.path.join(os.path.dirname(os.path.dirname(os.path.abspath(__file__))), ".target", "cfg")
+            os.makedirs(d, exist_ok=True)
+            path = os.path.join(d, hashlib.sha1(body).hexdigest()[:16] + ".txt")
+            if not os.path.exists(path):
+                with open(path + ".tmp%d" % os.getpid(), "wb") as f:
+                    f.write(body)
+                os.replace(path + ".tmp%d" % os.getpid(), path)
+            parts.append("@" + path)
+        if inline or not parts:
+            parts.append(",".join(salt(inline, [j for j in self.JUNK if " " not in j and j != "-"])))
+        return "+".join(parts)
 
     def line(self):
-        def ips(l):
-            return "-" if not l else ",".join(pkt.ip_s(x) for x in l)
-        return "C %s %s %s %x %x %s %d" % (pkt.mac_s(self.mac), ips(self.selfips), ips(self.deny),
+        def ips(l, salt):
+            if not l:
+                return "-"
+            if self.noise is None:
+                return ",".join(pkt.ip_s(x) for x in l)
+            return self._written(l, self.noise * 2 + salt)
+        return "C %s %s %s %x %x %s %d" % (pkt.mac_s(self.mac), ips(self.selfips, 0), ips(self.deny, 1),
                                           self.key[0], self.key[1], self.logger, self.level)
 
     def to_json(self):
         return {"mac": pkt.mac_s(self.mac),
                 "selfips": None if not self.selfips else [pkt.ip_s(x) for x in self.selfips],
                 "deny": None if not self.deny else [pkt.ip_s(x) for x in self.deny],
-                "key": ["%x" % self.key[0], "%x" % self.key[1]], "logger": self.logger, "level": self.level}
+                "key": ["%x" % self.key[0], "%x" % self.key[1]], "logger": self.logger, "level": self.level, "noise": self.noise}
 
     @staticmethod
     def from_json(j):
         return Config(pkt.mac(j["mac"]), None if not j["selfips"] else [pkt.ip(x) for x in j["selfips"]],
                       None if not j["deny"] else [pkt.ip(x) for x in j["deny"]],
-                      (int(j["key"][0], 16), int(j["key"][1], 16)), j["logger"], j["level"])
+                      (int(j["key"][0], 16), int(j["key"][1], 16)), j["logger"], j["level"], j.get("noise"))
 
     def with_(self, **kw):
-        c = Config(self.mac, self.selfips, self.deny, self.key, self.logger, self.level)
+        c = Config(self.mac, self.selfips, self.deny, self.key, self.logger, self.level, self.noise)
         for k, v in kw.items():
             setattr(c, k, v)
         return c
@@ -100,6 +144,8 @@ class Driver:
         r = self._result("hello")
         if r[:1] != ["V"]:
             raise RuntimeError("unexpected driver greeting %r" % (r,))
+        # protocol version 2: address lists go through the real list parsers ("@file+inline" syntax)
+        self.version = int(r[1]) if len(r) > 1 and r[1].isdigit() else 1
 
     # ---- low level -------------------------------------------------------------
     def _fill(self, outstanding):
@@ -158,6 +204,8 @@ class Driver:
 
     # ---- commands --------------------------------------------------------------
     def cfg(self, c):
+        if c.noise is not None and getattr(self, "version", 1) < 2:
+            c = c.with_(noise=None)         # a driver without the list-parser hook only takes plain lists
         r = self._cmd(c.line())
         if r[:2] != ["C", "ok"]:
             raise RuntimeError("configuration rejected: %r" % (r,))
